@@ -14,10 +14,10 @@ Theorems about `assembleCHP` (the generation part of the model `buildCHP` of
 `a = assembleCHP r` for the resolved inputs `r`) — sections (1)–(5), the PROFILE-FREE case —, about the model
 `buildMinLoad` of `CHPAsset_with_min_load_costs` — section (6) — and about `assembleCHPP`, the model WITH start /
 shutdown ramp profiles (`start_ramp_*`, `shutdown_ramp_*`, `_convert_ramp`, shutdown variables) — section (7).
-What remains `_partial` (TARGET, modelled and covered by the correspondence but without theorem): with profiles,
-(1a) `commit_rows_iff_spec` (the admissible on/off patterns of the rows WITH shutdown variables and the increased
-minimum runtime), the reading of the HEAT profile rows (`heatProfRows`), the relaxed ramp rows when several flags
-are set at once, and statements about `convertRamp` (interpolation / averaging of a profile given in `ramp_freq`).
+The statements section (7) left open — (1a) `commit_rows_iff_spec` for the rows WITH shutdown variables and the increased
+minimum runtime, the flags at the first and last step, the reading of the HEAT profile rows (`heatProfRows`), the relaxed
+ramp rows when several flags are set at once, and `convertRamp` (interpolation / averaging of a profile given in
+`ramp_freq`) — are proved in `EAO/Properties/C06Profile.lean` (namespace `EAO.C06P`).
 
 Reading of the variables of an assignment `x : Vec`: power `x (L.power j)`, heat `x (L.heat j)`,
 on `x (L.on j)`, start `x (L.start j)` with `L = r.layout`; virtual dispatch `r.vd x j = power + conv_j·heat`.
@@ -396,9 +396,10 @@ theorem start_shut_flag (r : CHPRP) (x : Vec) (hx : (assembleCHPP r).FeasibleRel
     x (r.core.layout.on (t + 1)) - x (r.core.layout.on t) = x (r.core.layout.start (t + 1)) - x (r.shut (t + 1)) :=
   CHPProfile.start_shut_flag r x hx t ht
 
-/-- … so that (0/1 values) a start is flagged EXACTLY at off→on transitions — for every step that has an exclusion row
-    `start + shut ≤ 1`, i.e. all but the last (see `last_step_flags_not_exclusive`) -/
-theorem start_exact (r : CHPRP) (x : Vec) (hx : (assembleCHPP r).FeasibleRelaxed x) (t : Nat) (ht : t + 2 < r.core.T)
+/-- … so that (0/1 values) a start is flagged EXACTLY at off→on transitions — at every step `t + 1 < T`, the last one
+    included: since the repair of /repo (commit e7aae05) every step has an exclusion row `start + shut ≤ 1`
+    (see `last_step_witness_now_rejected`; step 0 and the iff form for all steps: `EAO.C06P.flags_exact`, `flag_rows_iff`) -/
+theorem start_exact (r : CHPRP) (x : Vec) (hx : (assembleCHPP r).FeasibleRelaxed x) (t : Nat) (ht : t + 1 < r.core.T)
     (ho : x (r.core.layout.on t) = 0 ∨ x (r.core.layout.on t) = 1)
     (ho' : x (r.core.layout.on (t + 1)) = 0 ∨ x (r.core.layout.on (t + 1)) = 1)
     (hs : x (r.core.layout.start (t + 1)) = 0 ∨ x (r.core.layout.start (t + 1)) = 1)
@@ -407,7 +408,7 @@ theorem start_exact (r : CHPRP) (x : Vec) (hx : (assembleCHPP r).FeasibleRelaxed
   CHPProfile.start_exact r x hx t ht ho ho' hs hq
 
 /-- … and a shutdown exactly at on→off transitions -/
-theorem shutdown_exact (r : CHPRP) (x : Vec) (hx : (assembleCHPP r).FeasibleRelaxed x) (t : Nat) (ht : t + 2 < r.core.T)
+theorem shutdown_exact (r : CHPRP) (x : Vec) (hx : (assembleCHPP r).FeasibleRelaxed x) (t : Nat) (ht : t + 1 < r.core.T)
     (ho : x (r.core.layout.on t) = 0 ∨ x (r.core.layout.on t) = 1)
     (ho' : x (r.core.layout.on (t + 1)) = 0 ∨ x (r.core.layout.on (t + 1)) = 1)
     (hs : x (r.core.layout.start (t + 1)) = 0 ∨ x (r.core.layout.start (t + 1)) = 1)
@@ -415,14 +416,19 @@ theorem shutdown_exact (r : CHPRP) (x : Vec) (hx : (assembleCHPP r).FeasibleRela
     x (r.shut (t + 1)) = 1 ↔ (x (r.core.layout.on t) = 1 ∧ x (r.core.layout.on (t + 1)) = 0) :=
   CHPProfile.shutdown_exact r x hx t ht ho ho' hs hq
 
-/-- witness (observation P-2 of notes/findings_chp.md): the exclusion rows stop one step early, so at the LAST step a
-    start and a shutdown may both be flagged while the unit stays on (and the step is then bounded by the start profile) -/
-theorem last_step_flags_not_exclusive :
-    ∃ x : Vec, (assembleCHPP CHPProfile.witnessLast).FeasibleRelaxed x ∧
-      x (CHPProfile.witnessLast.core.layout.on 0) = 1 ∧ x (CHPProfile.witnessLast.core.layout.on 1) = 1 ∧
-      x (CHPProfile.witnessLast.core.layout.start 1) = 1 ∧ x (CHPProfile.witnessLast.shut 1) = 1 ∧
-      CHPProfile.witnessLast.core.vd x 1 = 1 :=
-  CHPProfile.last_step_flags_not_exclusive
+/-- start and shutdown flag exclude each other at EVERY step, the last one included -/
+theorem flags_exclusive (r : CHPRP) (x : Vec) (hx : (assembleCHPP r).FeasibleRelaxed x) (t : Nat) (ht : t < r.core.T) :
+    x (r.core.layout.start t) + x (r.shut t) ≤ 1 :=
+  CHPProfile.no_overlap r x hx t ht
+
+/-- the former witness of observation P-2 (notes/findings_chp.md; finding 1 of notes/findings_c06prof.md, repaired in
+    /repo by commit e7aae05: the exclusion rows stopped one step early, so at the LAST step a start and a shutdown could
+    both be flagged while the unit stayed on, the step then being bounded by the start profile) is now REJECTED by the
+    generated problem; with exact flags and at least `min_cap` in the last step the point is feasible -/
+theorem last_step_witness_now_rejected :
+    ¬ (assembleCHPP CHPProfile.witnessLast).FeasibleRelaxed (fun j => [1, 1, 1, 1, 1, 1, 0, 1].getD j 0) ∧
+    (assembleCHPP CHPProfile.witnessLast).FeasibleRelaxed (fun j => [1, 3, 1, 1, 1, 0, 0, 0].getD j 0) :=
+  CHPProfile.last_step_witness_now_rejected
 
 /-- ramp rows outside the ramps (no start flag in the window of the upper row, no shutdown flag in the window of the
     lower row): the profile-free reading `v_{t−1} − ramp·on_{t−1} ≤ v_t ≤ v_{t−1} + ramp·on_t` -/
